@@ -16,7 +16,7 @@ def _harness():
 def prebuild():
     _harness()
     vf.build_preload()
-    vf.build_flavour("tsan", ["csg_stat", "csg_reupdate"])
+    vf.build_flavour("tsan", ["csg_stat", "csg_reupdate", "orientcorr", "partial_rdf"])
 
 
 def run(chk):
@@ -61,14 +61,16 @@ def run(chk):
 
 def run_executables(chk, work):
     pre = vf.build_preload()
-    vf.build_flavour("asan", ["csg_stat", "csg_reupdate"])
-    vf.build_flavour("tsan", ["csg_stat", "csg_reupdate"])
+    vf.build_flavour("asan", ["csg_stat", "csg_reupdate", "orientcorr", "partial_rdf"])
+    vf.build_flavour("tsan", ["csg_stat", "csg_reupdate", "orientcorr", "partial_rdf"])
     rng = random.Random(chk.seed * 7919 + 13)
     ncases = vf.tier_n(chk.tier, 24, 160)
     cases = []
     for i in range(ncases):
         d = os.path.join(work, "exe%d" % i)
-        gen = gen_stat_case if i % 2 == 0 else gen_reupdate_case
+        gen = [gen_stat_case, gen_reupdate_case, gen_stat_case,
+               gen_reupdate_case, gen_orientcorr_case,
+               gen_partial_rdf_case][i % 6]
         cases.append((d, gen(rng, d)))
     # reference runs (nt 1, asan)
     refs = vf.run_parallel([lambda d=d, c=c: run_exe(
@@ -269,6 +271,46 @@ def gen_reupdate_case(rng, d):
             "selected": sel, "ordered": False}
 
 
+def exe_path(fl, kind):
+    if kind in ("csg_orientcorr", "csg_partial_rdf"):
+        sub = kind[4:]
+        return os.path.join(vf.flavour_dir(fl), "csg", "src", "csgapps", sub, kind)
+    return vf.exe(fl, kind)
+
+
+def gen_orientcorr_case(rng, d):
+    """csg_orientcorr (unordered mode) on the water-like system of gen_stat_case"""
+    case = gen_stat_case(rng, d)
+    opts = ["--top", "../topol.xml", "--trj", "../traj.dump", "--cutoff",
+            rng.choice(["0.6", "0.9"]), "--nbins", rng.choice(["10", "25"]),
+            "--nbmethod", rng.choice(["grid", "simple"])]
+    for o in ("--first-frame", "--nframes"):
+        if o in case["opts"]:
+            opts += [o, case["opts"][case["opts"].index(o) + 1]]
+    case.update({"kind": "csg_orientcorr", "opts": opts, "ordered": False,
+                 "imc": False, "block": None})
+    return case
+
+
+def gen_partial_rdf_case(rng, d):
+    """csg_partial_rdf (ordered mode), mapped water-like system"""
+    case = gen_stat_case(rng, d)
+    s = open(os.path.join(d, "settings.xml")).read().replace(
+        "<cg>", "<cg>\n <nbsearch>%s</nbsearch>" % rng.choice(["grid", "simple"]))
+    open(os.path.join(d, "settings.xml"), "w").write(s)
+    opts = ["--top", "../topol.xml", "--trj", "../traj.dump", "--cg",
+            "../mapping.xml", "--options", "../settings.xml",
+            "--subvolume_radius", rng.choice(["0.95", "0.8"])]
+    if rng.random() < 0.5:
+        opts.append("--do-vol-corr")
+    for o in ("--first-frame", "--nframes"):
+        if o in case["opts"]:
+            opts += [o, case["opts"][case["opts"].index(o) + 1]]
+    case.update({"kind": "csg_partial_rdf", "opts": opts, "ordered": True,
+                 "imc": False, "block": None})
+    return case
+
+
 def _prep_rundir(case, rd):
     os.makedirs(rd)
     if case["kind"] == "csg_reupdate":
@@ -287,7 +329,7 @@ def run_exe(fl, case, rd, nt, dseed, preload, log=True):
         extra["VF_EVENT_LOG"] = os.path.join(rd, "events.log")
     env = vf.lib_env(fl, extra)
     env["ASAN_OPTIONS"] += ":verify_asan_link_order=0"
-    return vf.run_proc([vf.exe(fl, case["kind"])] + case["opts"] +
+    return vf.run_proc([exe_path(fl, case["kind"])] + case["opts"] +
                        ["--nt", str(nt)], env=env, cwd=rd, timeout=90)
 
 
